@@ -617,6 +617,26 @@ pub fn run<C: VCtx>(ctx: &C, op: &str, a: &[Value]) -> Value {
             let n = usize_in(&a[0]);
             xs_out::<C>(&(0..n).map(|_| ctx.rnd_exp()).collect::<Vec<_>>())
         }
+        // direct calls into curve25519-dalek (oracle for the ristretto codec: strand must add or lose nothing)
+        "raw_point_valid" => {
+            let b = hex_in(&a[0]);
+            json!(curve25519_dalek::ristretto::CompressedRistretto::from_slice(&b)
+                .ok()
+                .and_then(|c| c.decompress())
+                .is_some())
+        }
+        "raw_scalar_canonical" => {
+            let b = hex_in(&a[0]);
+            if b.len() != 32 {
+                json!(false)
+            } else {
+                let mut x = [0u8; 32];
+                x.copy_from_slice(&b);
+                let o: Option<curve25519_dalek::scalar::Scalar> =
+                    curve25519_dalek::scalar::Scalar::from_canonical_bytes(x).into();
+                json!(o.is_some())
+            }
+        }
         _ => json!({"unknown_op": op}),
     }
 }
